@@ -128,7 +128,7 @@ func init() {
 		Cases: func(master uint64, tier string) []Case {
 			n := 1500
 			if tier == "thorough" {
-				n = 25000
+				n = 250000
 			}
 			return seqCases(master, n, nil)
 		},
